@@ -82,6 +82,8 @@ def _work(task):
             judge(f"({ta}) & ({tb})", lambda: d.op("&", a, b), [x and y for x, y in zip(A, B)], arb)
             judge(f"({ta}) | ({tb})", lambda: d.op("|", a, b), [x or y for x, y in zip(A, B)], arb)
             if not arb:
+                judge(f"~(({ta}) | ({tb}))", lambda: d.op("~", d.op("|", a, b)), [not (x or y) for x, y in zip(A, B)], arb)
+                judge(f"~(({ta}) & ({tb}))", lambda: d.op("~", d.op("&", a, b)), [not (x and y) for x, y in zip(A, B)], arb)
                 judge(f"~({ta}) & ({tb})", lambda: d.op("&", d.op("~", a), b), [(not x) and y for x, y in zip(A, B)], arb)
                 judge(f"({ta}) | ~({tb})", lambda: d.op("|", a, d.op("~", b)), [x or (not y) for x, y in zip(A, B)], arb)
                 cs = leaves if tier == "thorough" else [leaves[rnd.randrange(len(leaves))] for _ in range(2)]
@@ -90,6 +92,7 @@ def _work(task):
                         continue
                     C = truth[tc]
                     judge(f"(({ta}) & ({tb})) | ({tc})", lambda: d.op("|", d.op("&", a, b), c), [(x and y) or z for x, y, z in zip(A, B, C)], arb)
+                    judge(f"~((({ta}) | ({tb})) | ({tc}))", lambda: d.op("~", d.op("|", d.op("|", a, b), c)), [not (x or y or z) for x, y, z in zip(A, B, C)], arb)
                     judge(f"(({ta}) | ({tb})) & ~({tc})", lambda: d.op("&", d.op("|", a, b), d.op("~", c)), [(x or y) and not z for x, y, z in zip(A, B, C)], arb)
     return {"fails": fails, "n": n, "raised": raised, "samples": samples}
 
